@@ -511,3 +511,139 @@ def mon_c12(case, out):
                         bad.append(("search-final-status", "token %d (%s %r): outcomes %s -> reported %s, expected %s"
                                     % (cur["tok"], cur["kind"], cands, outs_, cur["done"], exp)))
     return bad
+
+
+def _revname(ip):
+    import ipaddress
+    return ipaddress.ip_address(ip).reverse_pointer
+
+
+def _reply_addrs(qt, marker, an):
+    import ipaddress
+    if qt == 28:
+        base = int(ipaddress.ip_address("2001::"))
+        return [str(ipaddress.ip_address(base + ((marker & 0xffff) << 8) + i + 1)) for i in range(an)]
+    return ["10.%d.%d.%d" % ((marker >> 8) & 255, marker & 255, i + 1) for i in range(an)]
+
+
+def mon_lookups(case, out):
+    """C13 end to end on the front ends the channel model does not cover (the `lookups` stream: no search domains, no
+    hosts file, no forged replies).  Reverse lookups (gethostbyaddr, getnameinfo): every PTR question is the RFC
+    1035/3596 reverse-map name of the requested address, the name returned is a PTR target of a reply to that
+    question and the address returned is the one asked for.  Forward lookups (gethostbyname, getaddrinfo with RFC 6724
+    sorting): sub-queries are of the requested family only; the addresses returned are of that family, contain no
+    duplicate, and per family are exactly the address set of one scripted reply to a question for that name (or the
+    literal / the loopback addresses): none invented, none dropped by sorting."""
+    import ipaddress
+    bad = []
+    reqs, txs, replies = {}, {}, []   # tok -> request; tx index -> (qname, qtype); (tx index, marker, an)
+    rev_issued = set()
+    ntx = 0
+
+    def canon(a):
+        try:
+            return str(ipaddress.ip_address(a))
+        except ValueError:
+            return a
+
+    for op, evs, line in _iter(case, out):
+        t = op.split()
+        kv = _kv(t)
+        cur, own_id = None, None
+        if t[0] == "chan":
+            reqs, txs, replies, rev_issued, ntx = {}, {}, [], set(), 0
+            continue
+        if t[0] == "req" and kv.get("kind") in ("ghba", "gni", "ghbn", "gai"):
+            cur = {"tok": int(kv["tok"]), "kind": kv["kind"], "name": kv["name"], "fam": int(kv.get("fam", 0))}
+            reqs[cur["tok"]] = cur
+            if cur["kind"] in ("ghba", "gni"):
+                cur["rev"] = _revname(cur["name"])
+                rev_issued.add(cur["rev"])
+        if t[0] == "reply" and kv.get("kind", "noerror") == "noerror":
+            k = int(kv.get("tx", "-1"))
+            k = ntx + k if k < 0 else k
+            if 0 <= k < ntx:
+                replies.append((k, int(kv.get("mark", k)), int(kv.get("an", 1))))
+        for name, args in evs:
+            if name == "tx":
+                a = _kv(args)
+                idx = int(args[0])
+                ntx = max(ntx, idx + 1)
+                q = bytes.fromhex(a["q"]).decode("latin-1") if a.get("q", "-") != "-" else ""
+                qt = int(a.get("t", 0))
+                txs[idx] = (q.lower(), qt)
+                if qt == 12 and q.lower() not in rev_issued:
+                    bad.append(("reverse-name", "PTR question %r is not the reverse-map name of any address looked up (%s)"
+                                % (q, sorted(rev_issued))))
+                # the request's own query is the one carrying the first id drawn during the call (other
+                # transmissions in the same call are requeues of older queries after a send failure)
+                if cur is not None and own_id is not None and a.get("id") == own_id:
+                    if cur["kind"] in ("ghba", "gni"):
+                        if qt != 12 or q.lower() != cur["rev"]:
+                            bad.append(("reverse-name", "%s(%s) asked type %d %r, reverse-map name is %r"
+                                        % (cur["kind"], cur["name"], qt, q, cur["rev"])))
+                    elif (cur["fam"] == 2 and qt != 1) or (cur["fam"] == 10 and qt != 28) or qt not in (1, 28):
+                        bad.append(("lookup-family", "%s(%s, family %d) asked a type %d question"
+                                    % (cur["kind"], cur["name"], cur["fam"], qt)))
+            elif name == "rnd" and cur is not None and own_id is None and len(args) == 2 and args[0] == "2":
+                own_id = args[1]
+            elif name == "cb" and len(args) >= 2 and args[1] == "ok" and args[0].lstrip("-").isdigit() and int(args[0]) in reqs:
+                r = reqs[int(args[0])]
+                rest = ",".join(args[2:])
+                if r["kind"] in ("ghba", "gni"):
+                    targets = set()
+                    for (k, mk, an) in replies:
+                        if txs.get(k) == (r["rev"], 12):
+                            targets |= {"host%d-%d.example" % (mk, i + 1) for i in range(an)}
+                    if r["kind"] == "ghba":
+                        m = re.search(r"host=([^,]*)", rest)
+                        parts = [x for x in (m.group(1) if m else "").split(";") if x]
+                        got, addrs = (parts[0] if parts else ""), [canon(x) for x in parts[1:]]
+                        if addrs != [canon(r["name"])]:
+                            bad.append(("reverse-address", "gethostbyaddr(%s) returned addresses %s" % (r["name"], addrs)))
+                    else:
+                        m = re.search(r"node=([^,]*)", rest)
+                        got = m.group(1) if m else ""
+                    if got not in targets:
+                        bad.append(("reverse-target", "%s(%s) returned %r; PTR targets of the replies to %s: %s"
+                                    % (r["kind"], r["name"], got, r["rev"], sorted(targets))))
+                else:
+                    if r["kind"] == "ghbn":
+                        m = re.search(r"host=([^,]*)", rest)
+                        parts = [x for x in (m.group(1) if m else "").split(";") if x]
+                        addrs = [canon(x) for x in parts[1:]]
+                    else:
+                        m = re.search(r"ai=([^,]*)", rest)
+                        parts = [x for x in (m.group(1) if m else "").split(";") if x and not x.startswith(("name=", "cn="))]
+                        addrs = [canon(x.split("/")[0]) for x in parts]
+                    if len(set(addrs)) != len(addrs):
+                        bad.append(("lookup-duplicate", "%s(%s) returned %s" % (r["kind"], r["name"], addrs)))
+                    v4 = {a for a in addrs if ":" not in a}
+                    v6 = {a for a in addrs if ":" in a}
+                    try:
+                        ipaddress.ip_address(r["name"])
+                        literal = True     # family restriction of literals: the `literal` stream (known finding F32)
+                    except ValueError:
+                        literal = False
+                    if not literal and ((r["fam"] == 2 and v6) or (r["fam"] == 10 and v4) or (r["kind"] == "ghbn" and v4 and v6)):
+                        bad.append(("lookup-family", "%s(%s, family %d) returned %s" % (r["kind"], r["name"], r["fam"], addrs)))
+                    nm = r["name"].lower().rstrip(".")
+                    for fam_set, qt in ((v4, 1), (v6, 28)):
+                        if not fam_set:
+                            continue
+                        ok = False
+                        try:
+                            lit = ipaddress.ip_address(r["name"])
+                            ok = fam_set == {str(lit)}
+                        except ValueError:
+                            pass
+                        if nm == "localhost" and fam_set == {"127.0.0.1" if qt == 1 else "::1"}:
+                            ok = True
+                        for (k, mk, an) in replies:
+                            if txs.get(k) == (nm, qt) and set(canon(x) for x in _reply_addrs(qt, mk, an)) == fam_set:
+                                ok = True
+                        if not ok:
+                            cands = [sorted(_reply_addrs(qt, mk, an)) for (k, mk, an) in replies if txs.get(k) == (nm, qt)]
+                            bad.append(("lookup-addresses", "%s(%s, family %d) returned %s; the replies to its type %d "
+                                        "questions carried %s" % (r["kind"], r["name"], r["fam"], sorted(fam_set), qt, cands)))
+    return bad
